@@ -19,6 +19,7 @@ var registry = map[string]checkFn{
 	"C08": checkC08,
 	"C09": checkC09,
 	"C10": checkC10,
+	"C11": checkC11,
 	"C22": checkC22,
 	"C25": checkC25,
 	"C28": checkC28,
